@@ -68,7 +68,7 @@ theorem pinned_all (U : Universe) (fuel : Nat) :
           split
           · rfl
           · rename_i r m hfind
-            have r1 := ihOps { s with hints := hs, calls := Dict.set s.calls (r, m) ((Dict.get? s.calls (r, m)).getD 0 + 1), pinned := r :: s.pinned, log := .cb (some r) m args :: s.log } (U.reaction r m ((Dict.get? s.calls (r, m)).getD 0))
+            have r1 := ihOps { s with hints := hs, calls := Dict.set s.calls (r, m) ((Dict.get? s.calls (r, m)).getD 0 + 1), pinned := r :: s.pinned, log := .cb (some r) (U.impl r m) args :: s.log } (U.reaction r m ((Dict.get? s.calls (r, m)).getD 0))
             split
             · rename_i s' hx
               rw [hx] at r1
